@@ -198,11 +198,10 @@ func H_C17_dvGet() {
 		}
 		switch op {
 		case vdvFloat32:
-			wf := math.Float32frombits(uint32(raw))
-			vAssert("dvGet:float32==RawBytesToNumeric", f32 == wf || (f32 != f32 && wf != wf))
+			// bit-exact (stronger than Number equality: also the NaN payload is the stored one)
+			vAssert("dvGet:float32==RawBytesToNumeric", math.Float32bits(f32) == uint32(raw))
 		case vdvFloat64:
-			wf := math.Float64frombits(raw)
-			vAssert("dvGet:float64==RawBytesToNumeric", f64 == wf || (f64 != f64 && wf != wf))
+			vAssert("dvGet:float64==RawBytesToNumeric", math.Float64bits(f64) == raw)
 		default:
 			vAssert("dvGet:int-result-defined", res != nil)
 			vAssert("dvGet:int==RawBytesToNumeric", res.ToInteger() == refDVInt(op, raw))
@@ -292,3 +291,8 @@ func H_C17_dvSet() {
 	// also: nothing is written into the slab after a detach or on a throwing call
 	vAssert("dvSet:bytes==NumericToRawBytes", ok)
 }
+
+// symbolic-mode replacement of intToValue (vm.go): contract "the Number i"; exact for |i| <= 2^53, which
+// every 8/16/32-bit element satisfies. Avoids the 256-way intCache lookup on a symbolic value
+// (Number boxing is C05's subject).
+func vC17StubIntToValue(i int64) Value { return valueInt(i) }
